@@ -207,6 +207,18 @@ func specLabels(s *rt.Spec) []string {
 	if s.Wrap {
 		l = append(l, "wrap")
 	}
+	if s.Shadow {
+		l = append(l, "shadow")
+	}
+	if s.Encl != "" {
+		l = append(l, "encl:"+s.Encl)
+	}
+	if s.Paren {
+		l = append(l, "paren")
+	}
+	if s.Extra > 0 {
+		l = append(l, "extra-directives")
+	}
 	if s.Emitters > 0 {
 		l = append(l, "emitters")
 	}
